@@ -26,7 +26,7 @@ func init() {
 				"of every fallible step that precedes it in its function, and every such step's error is checked; addRuleList keeps " +
 				"the previous list on each error edge. R4: the index conversion skips invalid entries and keeps converting the rest.",
 			NotCovered: "behaviour of the HTTP client under each fault kind; atomicity of renameio itself (trusted); disk-full and fsync semantics.",
-			Rules: map[string]string{"C13-R18": "the fixed cache-file names of the indexes, the safe-search and the hash-prefix lists are refused as rule-list keys by the index validation (all copies share one directory)", "C13-R17": "RefreshInitial accepts stale copies on disk (true), the periodic Refresh does not (false), for the storage and the hash-prefix filters", "C13-R16": "a consumer that can reject downloaded text does so before the text replaces the cache file (otherwise the rejected file is what the next start loads)", "C13-R15": "loadIndex (rule lists and blocked services): any load or decoding error rejects the whole index", "C13-R14": "builder wiring of the hash-prefix filters: own ID, cache file, storage and URL each (shared with C11-R11)", "C13-RC": "class rules (error chains, shadowed results, character classes, crossed arguments, pool constructors, array pools, loop completeness, loop-carried buffers, replacing setters, complete clones, Grow arithmetic, pooled-buffer escape, sorted searches, fresh decode targets, per-iteration objects, whole-message copies, codec guards) over the packages this property rests on", "C13-R13": "loadIndex only sorts the decoded entries; none is removed before validation", "C13-R12": "in-place list refresh: engine swap and cache clear under one write lock; same-typed arguments (acceptStale vs cache switches) are not crossed", "C13-R11": "the periodic refresh worker: the loop ends only on shutdown, refreshes on every uninterrupted tick, survives a failed refresh; shutdown refresh exactly when configured; constructor field map", "C13-R9": "an index key is converted to filter.ID only where the same field is validated by filter.NewID in the package", "C13-R10": "components with RefreshInitial are started through it in package cmd, never through their periodic Refresh", "C13-R1": "download / replace protocol tables", "C13-R2": "who may mutate files",
+			Rules: map[string]string{"C13-R19": "setRuleLists installs a selected rule list only when a loaded version exists, so a list whose first download failed cannot reach a composite filter as nil (table shared with C02-R26)", "C13-R18": "the fixed cache-file names of the indexes, the safe-search and the hash-prefix lists are refused as rule-list keys by the index validation (all copies share one directory)", "C13-R17": "RefreshInitial accepts stale copies on disk (true), the periodic Refresh does not (false), for the storage and the hash-prefix filters", "C13-R16": "a consumer that can reject downloaded text does so before the text replaces the cache file (otherwise the rejected file is what the next start loads)", "C13-R15": "loadIndex (rule lists and blocked services): any load or decoding error rejects the whole index", "C13-R14": "builder wiring of the hash-prefix filters: own ID, cache file, storage and URL each (shared with C11-R11)", "C13-RC": "class rules (error chains, shadowed results, character classes, crossed arguments, pool constructors, array pools, loop completeness, loop-carried buffers, replacing setters, complete clones, Grow arithmetic, pooled-buffer escape, sorted searches, fresh decode targets, per-iteration objects, whole-message copies, codec guards) over the packages this property rests on", "C13-R13": "loadIndex only sorts the decoded entries; none is removed before validation", "C13-R12": "in-place list refresh: engine swap and cache clear under one write lock; same-typed arguments (acceptStale vs cache switches) are not crossed", "C13-R11": "the periodic refresh worker: the loop ends only on shutdown, refreshes on every uninterrupted tick, survives a failed refresh; shutdown refresh exactly when configured; constructor field map", "C13-R9": "an index key is converted to filter.ID only where the same field is validated by filter.NewID in the package", "C13-R10": "components with RefreshInitial are started through it in package cmd, never through their periodic Refresh", "C13-R1": "download / replace protocol tables", "C13-R2": "who may mutate files",
 				"C13-R3": "commit only after success", "C13-R4": "invalid index entries skipped, not aborting",
 				"C13-R7": "exact HTTP status check; only the size-limited reader that fails at the limit is used on a list's path",
 				"C13-R6": "blocked-service index: any invalid entry rejects the whole update",
@@ -228,6 +228,9 @@ func c13Commit(c *an.Ctx, rule string, fn *ssa.Function, what string, commit ssa
 
 func runC13(c *an.Ctx) {
 	classSweep(c, "C13")
+	// ---- R19: a rule list that has no loaded version is never installed in a composite filter (table of setRuleLists, shared with C02-R26)
+	c.Floor("C13-R19", 1)
+	c.Borrow("C13-R19", runC02, func(o an.Obligation) bool { return o.Rule == "C02-R26" && strings.Contains(o.Key, "setRuleLists") })
 	c.Floor("C13-R11", 5)
 	refreshWorkerRules(c, "C13-R11")
 	// ---- R12: an in-place refresh swaps engine and cache in one write-locked section (shared with C02-R10); the
